@@ -754,6 +754,39 @@ func ExchangeCases(tier string, seed uint64) []ExCase {
 		e.End(c, co)
 		e.O.Exs = []Ex{ex1}
 	})
+	if tier == "thorough" {
+		// more statuses and methods through the plain leaf, and every case three times (the write-failure
+		// and abort cases are decided by races between the peers)
+		for _, st := range []int{200, 201, 203, 206, 300, 301, 304, 400, 401, 403, 409, 418, 429, 451, 500, 501, 503, 599} {
+			for _, m := range []string{"GET", "POST", "PUT", "DELETE", "OPTIONS", "PATCH"} {
+				st, m := st, m
+				add(fmt.Sprintf("plain-status-%d-%s", st, m), "plain-ok", func(e *Env) {
+					reply := ReplyCL(st, "X", "body")
+					if st == 304 {
+						reply = Reply(304, "Not Modified", nil, "")
+					}
+					o := e.Peer(OriginReplying(reply, "keep"))
+					e.Start(nil)
+					c := e.Client()
+					ex := Ex{Val: Val{St: stClass(st)}, Method: m, UpStatus: st}
+					extra := []string(nil)
+					if m != "GET" && m != "DELETE" && m != "OPTIONS" {
+						extra = []string{"Content-Length: 0"}
+					}
+					co := e.Do(c, reqLine(m, "http://"+o.Addr+"/x", "HTTP/1.1", extra...), false, &ex)
+					e.End(c, co)
+					e.O.Exs = []Ex{ex}
+				})
+			}
+		}
+		base := append([]ExCase(nil), cs...)
+		for r := 1; r < 3; r++ {
+			for _, c := range base {
+				c.Name = fmt.Sprintf("%s#%d", c.Name, r)
+				cs = append(cs, c)
+			}
+		}
+	}
 	for i := range cs {
 		if cs[i].Class != "" {
 			continue
